@@ -1,5 +1,6 @@
 """C03 — identifier-level annotations and tags land on the right GIR element."""
 import ast
+from .. import strfrag
 import re
 
 from ..core import AnalysisError
@@ -189,14 +190,19 @@ def check(ctx):
         k = c.args[0]
         fmt = None
         parts = [k]
-        if isinstance(k, ast.BinOp) and isinstance(k.op, ast.Mod) and isinstance(k.left, ast.Constant):
-            fmt = k.left.value
-            parts = list(k.right.elts) if isinstance(k.right, ast.Tuple) else [k.right]
-        elif isinstance(k, ast.Name):
+        kk = k
+        if isinstance(k, ast.Name):
             d = [v for t, v, st in P.stores_in(f) if isinstance(t, ast.Name) and t.id == k.id]
-            if len(d) == 1 and isinstance(d[0], ast.BinOp) and isinstance(d[0].left, ast.Constant):
-                fmt = d[0].left.value
-                parts = list(d[0].right.elts) if isinstance(d[0].right, ast.Tuple) else [d[0].right]
+            if len(d) == 1:
+                kk = d[0]
+        # the key as a string shape: '%s' % x, 'a' + x, f-strings and str.format all read the same
+        try:
+            fr_ = strfrag.merge_consts(strfrag.flatten(kk))
+        except Exception:
+            fr_ = []
+        if any(x[0] == 'const' for x in fr_) and all(x[0] in ('const', 'expr') for x in fr_):
+            fmt = ''.join(x[1].replace('%', '%%') if x[0] == 'const' else '%s' for x in fr_)
+            parts = [x[1] for x in fr_ if x[0] == 'expr']
         fparams = set(a.arg for a in f.args.args) | set(t.id for n in P.walk_no_nested(f) if isinstance(n, ast.For) for t in ast.walk(n.target) if isinstance(t, ast.Name))
         local = P.local_defs(f)
         bad = []
@@ -222,7 +228,10 @@ def check(ctx):
     # the one sanctioned cross lookup: a virtual method takes its invoker's block (store vfunc.invoker = method.name on the same row)
     pv = py.func(MT, 'MainTransformer._pair_class_virtuals')
     inv = [e for e in P.effects(pv) if e.kind == 'store' and e.target == 'vfunc.invoker']
-    r2.check(any(e.value == 'method.name' for e in inv), 'vfunc without a block inherits from its invoker', rel, pv.lineno, 'invoker store changed: %s' % inv)
+    # the vfunc is named after the SAME method whose comment block it inherits (whatever that local is called)
+    inv_keys = set(P.src(c.args[0]) for c in P.calls_in(pv) if P.src(c.func) in ('self._blocks.get', 'self._blocks.pop') and c.args)
+    inv_ok = [e for e in inv if re.match(r'^\w+\.name$', e.value or '') and e.value[:-len('.name')] + '.symbol' in inv_keys]
+    r2.check(bool(inv_ok), 'vfunc without a block inherits from its invoker', rel, pv.lineno, 'invoker store changed: %s (block keys %s)' % (inv, sorted(inv_keys)))
 
     # ------------------------------------------------------------------ R3 pairing rules
     r3 = ctx.rule('R3', 'rename-to pairing is mutual and refuses targets already involved; heuristics never overwrite explicit annotations', floor=6)
